@@ -144,7 +144,7 @@ func siRandString(rng *rand.Rand, n int) string {
 	return string(rs)
 }
 
-var siLengths = []int{0, 1, 2, 7, 8, 9, 15, 16, 17, 31, 32, 255, 256, 257, 263, 264, 600}
+var siLengths = []int{0, 1, 2, 7, 8, 9, 15, 16, 17, 31, 32, 255, 256, 257, 263, 264, 600, 1023, 1024, 1025, 2048, 2049, 5000}
 
 func siMillis(rng *rand.Rand) time.Time {
 	// whole milliseconds across years 1..9999
@@ -335,7 +335,7 @@ func siC01(r *siReport) {
 		}
 		r.ok(cn)
 	}
-	r.done("zoo of 9 shapes x lengths {0..600 incl. every length form and the 8-bit wrap points} x seeded contents; 14 top-level scalars")
+	r.done("zoo of 9 shapes x lengths {0..600 incl. every length form and the 8-bit wrap points, and 1023..5000 across the list growth steps} x seeded contents; 14 top-level scalars")
 }
 
 // ---------------------------------------------------------------- C09: strings and binaries around chunk boundaries
